@@ -289,6 +289,24 @@ def correspondence(ctx):
     for op, a, b in zip(ops, impl, model):
         cmp(ctx, op, a == b, b, a)
 
+    # structural / exact models of genshifts (all tied sizes), pyramid, min4x4
+    ops, impl = [], []
+    for k in ([1, 2, 3, 4] if ctx.quick() else [1, 2, 3, 4, 5, 6, 7, 8]):
+        ops.append(f'C18 genshifts {k}')
+        impl.append(guarded(lambda: np.concatenate([np.asarray(P, dtype=np.float64).reshape(-1) for P in numqi.entangle.load_upb('genshifts', 2 * k - 1)])))
+    ops.append('C18 pyramid')
+    impl.append(guarded(lambda: np.concatenate([np.asarray(P, dtype=np.float64).reshape(-1) for P in numqi.entangle.load_upb('pyramid')])))
+    run(ops, impl, 1e-15, 'f', key='upb-structural')
+    ops, impl = [], []
+    for kind, args in upb_cases(ctx):
+        if kind == 'sixparam':
+            ops.append('C18 sixparam ' + ' '.join(f2b(x) for x in args))
+            impl.append(guarded(lambda: np.concatenate([np.asarray(P, dtype=np.complex128).reshape(-1) for P in numqi.entangle.load_upb('sixparam', args, ignore_warning=True)])))
+    run(ops, impl, 1e-15, 'cx', key='upb-structural')
+    mo = common.run_model(['C18 min4x4'])[0].split(' ')
+    im = guarded(lambda: np.concatenate([np.asarray(P, dtype=np.float64).reshape(-1) for P in numqi.entangle.load_upb('min4x4')]))
+    cmp(ctx, 'C18 min4x4', (not isinstance(im, str)) and mo[0] == '1' and len(mo) == 2 and parse_f(mo[1]).shape == im.shape and np.abs(parse_f(mo[1]) - im).max() <= 1e-15, mo[0], im, key='upb-structural')
+
     ops, impl = [], []
     for kind, args in upb_cases(ctx):
         r = guarded(lambda: numqi.entangle.load_upb(kind, args, return_bes=True, ignore_warning=True))
